@@ -237,6 +237,11 @@ def install(eng):
         tj = z3.Select(st.heap[("Backend", "_tracked_jobs")], b)
         return z3.Select(TJ.dom(tj), f_tname(t))
 
+    # entry-state names used to say "a dry run / status changed nothing" (C05)
+    vc.f_chg0 = z3.Function("chg0", vc.Hashes.sort(), vc.Target.sort(), z3.BoolSort())
+    eng.fn("chg0")(lambda e, st, h, t: V(T.BOOL, vc.f_chg0(h.z, t.z)))
+    vc.acc0 = z3.Const("acc0", z3.ArraySort(vc.JobId.sort(), z3.BoolSort()))
+    eng.spec_consts["acc0"] = V(T.SetT(vc.JobId), vc.acc0)
     eng.fn("Tracked")(lambda e, st, t: V(T.BOOL, tracked(st, vc.the_backend, t.z)))
     eng.fn("DepOK")(lambda e, st, t: V(T.BOOL, z3.Or(vc.dry_mode, tracked(st, vc.the_backend, t.z))))
     # interface view of a spec-hash store: the set of targets whose spec differs from the record
@@ -309,7 +314,14 @@ def install(eng):
             yield st, V(T.BOOL if r.sort() == z3.BoolSort() else PT, r)
         return rule
 
-    eng.rules[os.path.join] = rule1(vc.f_join, 2)
+    def r_join(e, args, kw, st, sink, n):
+        zs = [e.coerce(a, PT, n).z for a in args]
+        r = zs[0]
+        for z in zs[1:]:
+            r = vc.f_join(r, z)      # join(a, b, c) == join(join(a, b), c)
+        yield st, V(PT, r)
+
+    eng.rules[os.path.join] = r_join
     eng.rules[os.path.isabs] = rule1(vc.f_isabs, 1)
     eng.rules[os.path.abspath] = rule1(vc.f_abspath, 1)
     eng.rules[os.path.normpath] = rule1(vc.f_normpath, 1)
